@@ -978,7 +978,10 @@ class Interp:
                     return MAYBE
                 r = r if isinstance(op, ast.Is) else not r
                 return TRUE if r else FALSE
-            if isinstance(a, StrV) or isinstance(b, ClassRef):
+            if isinstance(a, ClassRef) and isinstance(b, ClassRef):
+                same_ = a.name == b.name
+                return (TRUE if same_ else FALSE) if isinstance(op, ast.Is) else (FALSE if same_ else TRUE)
+            if isinstance(a, StrV) or (isinstance(b, ClassRef) and not isinstance(a, Unknown)):
                 # `x is str`: identity with the type object - never true for a value
                 return FALSE if isinstance(op, ast.Is) else TRUE
             return MAYBE
@@ -1802,6 +1805,15 @@ class Interp:
                 bv = BoolV(unparse(n))
                 bv.recheck = n  # type: ignore[attr-defined]
                 return bv
+            if name == "type" and len(args) == 1:
+                a0_ = args[0]
+                if isinstance(a0_, Const):
+                    return ClassRef(type(a0_.value).__name__)
+                if isinstance(a0_, (StrV, Tmpl)):
+                    return ClassRef("str")
+                if isinstance(a0_, Obj):
+                    return ClassRef(a0_.cls)
+                return Unknown("type()")
             if name == "len" and args:
                 a = args[0]
                 if isinstance(a, Operand):
